@@ -18,7 +18,7 @@ import (
 func runIsolated(suiteName string, ops []string, emit func(string)) {
 	var ses [][]string
 	for _, o := range ops {
-		if strings.HasPrefix(o, "reset") || len(ses) == 0 {
+		if strings.HasPrefix(o, "reset") || strings.HasPrefix(o, "f ") || len(ses) == 0 {
 			ses = append(ses, nil)
 		}
 		ses[len(ses)-1] = append(ses[len(ses)-1], o)
@@ -136,6 +136,13 @@ func runRounds(name string, seed int64, n, par int) []roundResult {
 			if err := json.Unmarshal(out.Bytes(), &r); err != nil {
 				// the round process died: a panic in a library goroutine
 				st := errb.String()
+				full := st
+				for _, mark := range []string{"\npanic:", "\nfatal error:"} {
+					if k := strings.Index(st, mark); k >= 0 {
+						st = st[k+1:]
+						break
+					}
+				}
 				site := "?"
 				for _, l := range strings.Split(st, "\n") {
 					if strings.Contains(l, "github.com/lorenzodonini/ocpp-go/") && !strings.Contains(l, "_test") && strings.Contains(l, "(") {
@@ -159,7 +166,12 @@ func runRounds(name string, seed int64, n, par int) []roundResult {
 					res[i] = r
 					return
 				}
-				r.Violations = append(r.Violations, Violation{Property: "C06", Sig: "panic:" + site, What: fmt.Sprintf("%s round %d (seed %d): the process died with a panic in a library goroutine at %s", name, i, seed, site), Replay: st})
+				var replay interface{} = st
+				if j := strings.LastIndex(full, "FRAME "); j >= 0 {
+					last := strings.SplitN(full[j+6:], "\n", 2)[0]
+					replay = map[string]interface{}{"last_frame_hex": last, "stack": st}
+				}
+				r.Violations = append(r.Violations, Violation{Property: "C06", Sig: "panic:" + site, What: fmt.Sprintf("%s round %d (seed %d): the process died with a panic in a library goroutine at %s", name, i, seed, site), Replay: replay})
 			}
 			res[i] = r
 		}(i)
